@@ -105,6 +105,13 @@ def run_unit(unit, acc):
                           {"problems": problems}, "%s built by %s: %s" % (builder, hist, problems[0][:600]))
             continue
         acc.outcome("%s:cycle-ok" % builder)
+        if len(hist) >= 2:
+            # the same history with the manifest written and re-read INTO ITSELF before the last add
+            _, problems, _ = H.run_history(builder, hist, cycle=True, reload_before_last=True)
+            acc.ev()
+            if problems:
+                acc.violation("cycle-after-self-reload:" + builder, {"kind": "hist", "builder": builder, "hist": hist, "cycle": True, "reload": True},
+                              {"problems": problems}, "%s built by %s (re-read into itself before the last add): %s" % (builder, hist, problems[0][:600]))
         text = json.dumps(state)
         if builder == "rpms":
             if len(state) > 1:
